@@ -11,7 +11,7 @@ import itertools
 PROPERTY = 'C05'
 LEVEL = 'exploration'
 TIMEOUT_S = 1500
-RULE = ('configurations = (npts, start layout, rotational transform: 0 / 0.8 / r-dependent profile, perturbation mode (m,n)) x every admissible '
+RULE = ('configurations = (npts, start layout, rotational transform: 0 / 0.8 / r-dependent profile (monotone; flat with a local bump), perturbation mode (m,n)) x every admissible '
         'process grid up to the rank bound; per grid one simulated world runs: setupCylindricalGrid (initial f vs analytic formula at global '
         'coordinates), then flux-surface / v-parallel (+ parallel gradient, keep-gradient variant) / poloidal advection, density, '
         'quasi-neutrality solve on a globally defined perturbed f and potential; oracle (ii) wiring: every local slice equals the slice-level '
@@ -24,7 +24,7 @@ ASSUMPTIONS = ['slice-level operators are decided by C10-C13, C16 (here they ser
 
 CONFIGS = [
     {'npts': [6, 8, 7, 6], 'start': 'flux_surface', 'iota': 0.0, 'mn': [2, 1]},
-    {'npts': [6, 8, 7, 6], 'start': 'v_parallel', 'iota': 0.8, 'mn': [3, -2], 'R0': 3.0, 'chi': 1},     # chi=1: the m=0 mode has its own stiffness matrix wherever the theta modes are split; tight torus: several z cells per step, b_z strongly r dependent
+    {'npts': [6, 8, 7, 6], 'start': 'v_parallel', 'iota': 'bump', 'mn': [3, -2], 'R0': 3.0, 'chi': 1},     # iota: flat 0.8 with a local shear bump at mid radius (equal at both ends of some radial blocks, not inside);     # chi=1: the m=0 mode has its own stiffness matrix wherever the theta modes are split; tight torus: several z cells per step, b_z strongly r dependent
     {'npts': [5, 8, 9, 6], 'start': 'poloidal', 'iota': 'profile', 'mn': [2, 1], 'deg': [3, 3, 4, 2]},     # z and v with their own spline degree (Spline2D needs theta and r both cubic-uniform or both not)
     {'npts': [7, 5, 8, 7], 'start': 'v_parallel', 'iota': 0.8, 'mn': [2, 1]},
 ]
@@ -119,7 +119,7 @@ def _pipeline(cfg, nprocs, stages='all'):
         comm = MPI.COMM_WORLD
         out = {}
         viol = []
-        iv = 0.8 if cfg['iota'] == 'profile' else cfg['iota']
+        iv = 0.8 if cfg['iota'] in ('profile', 'bump') else cfg['iota']
         if cfg.get('entry') == 'file':
             f, c, t = setupFromFile(cfg['_dir'], comm=comm, layout=cfg['start'], allocateSaveMemory=True)
         else:
@@ -127,6 +127,9 @@ def _pipeline(cfg, nprocs, stages='all'):
                                            iotaVal=iv, eps=0.1, m=cfg['mn'][0], n=cfg['mn'][1], vMin=-6.1, splineDegrees=list(cfg.get('deg', [3, 3, 3, 3])), **dict(GEN, **({'R0': cfg['R0'], 'zMax': 2 * 3.141592653589793 * cfg['R0']} if 'R0' in cfg else {})))
         if cfg['iota'] == 'profile':
             c.iota = lambda rr=None: 0.8 * (1 + 0.05 * np.asarray(rr, dtype=float))
+        if cfg['iota'] == 'bump':
+            rmid, rw = 0.5 * (c.rMin + c.rMax), 0.2 * (c.rMax - c.rMin)
+            c.iota = lambda rr=None: 0.8 * (1 + 0.3 * np.maximum(0.0, 1 - ((np.asarray(rr, dtype=float) - rmid) / rw) ** 2))
         eta = f.eta_grid
         # ---- stage 1: initial condition against the analytic formula at global coordinates
         l = f.getLayout(f.currentLayout)
@@ -300,7 +303,7 @@ def _run_pipeline(cfg, grid, stages='all', chooser=None):
     d = None
     if cfg.get('entry') == 'file':
         d = env.scratch_dir('c05file')
-        iv = 0.8 if cfg['iota'] == 'profile' else cfg['iota']
+        iv = 0.8 if cfg['iota'] in ('profile', 'bump') else cfg['iota']
         sim.write_constants(os.path.join(d, 'initParams.json'), npts=list(cfg['npts']), iotaVal=iv, eps=0.1, m=cfg['mn'][0], n=cfg['mn'][1], vMin=-6.1, **GEN)
         cfg = dict(cfg, _dir=d)
     try:
